@@ -98,6 +98,10 @@ def run_case(case):
         ts = case["dag"]["targets"]
         sr = random.Random(case["adv_seed"])
         variant = [{"name": t["name"], "ins_expr": repr(gen.respell_list(sr, t["ins"], proj.root)), "outs_expr": repr(gen.respell_list(sr, t["outs"], proj.root, 0.1)), "spec": t["spec"], "route": "target"} for t in ts]
+        for v_, t in zip(variant, ts):
+            if not t["outs"] and sr.random() < 0.5:
+                # no output FILES, declared as a non-empty but file-less structure: still "declares no outputs"
+                v_["outs_expr"] = sr.choice(gen.EMPTY_TRUTHY + ["{'reports': []}", "[[], {'logs': ()}]"])
         proj.write_workflow(gen.render_workflow(variant))
         cfg = {"backend": sched}
         if case["hashing"]:
